@@ -50,7 +50,7 @@ def intervals(seed, tier="quick"):
 
 def work(tier, seed):
     b = bounds(tier)
-    return [
+    return [{"ladder": n} for n in (ot.LADDER_QUICK if tier == "quick" else ot.LADDER_THOROUGH[:-1])] + [
         {"blocks": [list(x) for x in bl], "grid": g}
         for bl in ot.order_types(b["max_pos"], b["max_neg"], 1, 1)
         for g in b["grids"]
@@ -67,6 +67,8 @@ def run(item, ctx, tier, seed):
     from score_analysis import Scores
 
     b = bounds(tier)
+    if "ladder" in item:
+        return _run_ladder(item, ctx, seed)
     blocks = [tuple(x) for x in item["blocks"]]
     import numpy as np
 
@@ -170,3 +172,36 @@ def run(item, ctx, tier, seed):
                                  observed=tot, expected=areas[(l3, h3)])
     ctx.sample({"blocks": item["blocks"], "grid": item["grid"], "pos": pos, "neg": neg,
                 "intervals": [[str(a), str(c)] for a, c in ivs]})
+
+
+def _run_ladder(item, ctx, seed):
+    """Full AUC (with ties) and partial AUC (classes on disjoint values) on much larger deterministic datasets."""
+    from score_analysis import Scores
+
+    n = item["ladder"]
+    for tie_free in (False, True):
+        pos, neg = ot.ladder_dataset(n, tie_free, seed)
+        spos, sneg = sorted(pos), sorted(neg)
+        for cfg in ot.CFGS:
+            for ep, en in ((0, 0), (3, 5)):
+                case = {"ladder_n": n, "tie_free": tie_free, "cfg": cfg, "easy": [ep, en], "n_pos": len(pos), "n_neg": len(neg)}
+                ctx.state()
+                ok, s = guarded(ctx, "construct", case, Scores, pos, neg, nb_easy_pos=ep, nb_easy_neg=en, score_class=cfg[0],
+                                equal_class=cfg[1])
+                if not ok:
+                    continue
+                want = refs.ref_mann_whitney_sorted(spos, sneg, cfg[0], ep, en)
+                ok, got = guarded(ctx, "auc-full", case, lambda: float(s.auc()))
+                ctx.tick()
+                ctx.nontrivial()
+                if ok and not abs(got - float(want)) <= 1e-9:
+                    ctx.fail("full-auc-equals-mann-whitney", case, observed=got, expected=float(want))
+                if tie_free and n <= 1100:
+                    for lo, hi in ((F(0), F(1, 2)), (F(1, 4), F(3, 4)), (F(1, 10), F(1, 5)), (F(3, 4), F(1))):
+                        ref = refs.ref_step_area(pos, neg, cfg[0], ep, en, lo, hi)
+                        ok, a = guarded(ctx, "auc-partial", dict(case, lower=str(lo), upper=str(hi)), lambda: float(s.auc(float(lo), float(hi))))
+                        ctx.tick()
+                        if ok and not abs(a - float(ref)) <= 1e-9:
+                            ctx.fail("partial-auc-equals-step-area", dict(case, lower=str(lo), upper=str(hi)), observed=a, expected=float(ref))
+    ctx.sample({"ladder_n": n})
+    return None
